@@ -28,6 +28,11 @@ type Case struct {
 	Printer string       `json:"printer"` // cnf | pbstring | solver-pbstring | explain-cnf
 	Steps   []Step       `json:"steps,omitempty"`  // solver-pbstring: what happens before printing
 	Probes  []uint64     `json:"probes,omitempty"` // assignments whose cost is compared
+	// SolveFirst: a solver is made from the problem and run (Solve, or Optimal when there is a cost function)
+	// before the *problem* is printed: printing must not depend on what a solver did with the problem.
+	SolveFirst bool `json:"solve_first,omitempty"`
+	// Sibling: a second solver is made from the same problem and given this clause before the first one is printed.
+	Sibling []int `json:"sibling,omitempty"`
 }
 
 type Step struct {
@@ -137,6 +142,15 @@ func check(c Case, o *vf.Obs) error {
 		n = mv
 	}
 	var txt string
+	if c.SolveFirst && c.Printer != "solver-pbstring" {
+		o.Class("problem-printed-after-a-solver-used-it")
+		used := solver.New(pb)
+		if pb.Optim() {
+			used.Optimal(nil, nil)
+		} else {
+			used.Solve()
+		}
+	}
 	switch c.Printer {
 	case "cnf":
 		txt = pb.CNF()
@@ -144,6 +158,11 @@ func check(c Case, o *vf.Obs) error {
 		txt = pb.PBString()
 	case "solver-pbstring":
 		s := solver.New(pb)
+		var sibling *solver.Solver
+		if len(c.Sibling) > 0 && pb.Status != solver.Unsat {
+			o.Class("sibling-solver")
+			sibling = solver.New(pb)
+		}
 		for _, st := range c.Steps {
 			if st.Kind == "solve" {
 				s.Solve()
@@ -158,6 +177,13 @@ func check(c Case, o *vf.Obs) error {
 			if mv := oracle.MaxVar([][]int{st.Lits}); mv > n {
 				n = mv
 			}
+		}
+		if sibling != nil {
+			ls := make([]solver.Lit, len(c.Sibling))
+			for i, l := range c.Sibling {
+				ls[i] = solver.IntToLit(int32(l))
+			}
+			sibling.AppendClause(solver.NewClause(ls))
 		}
 		txt = s.PBString()
 	}
@@ -269,6 +295,9 @@ func genCase(t *rapid.T) Case {
 			c.Probes = append(c.Probes, uint64(gen.Uniform(t, 0, 255, "probe")))
 		}
 	}
+	c.SolveFirst = gen.Chance(t, 1, 3, "solveFirst")
+	// (no sibling solver is generated: solver.New takes ownership of the problem's Model array and Clause objects,
+	// so two solvers made from one Problem share their bindings on the unchanged tree - see DESIGN 0.5, decision 18)
 	if c.Printer == "solver-pbstring" {
 		for i, k := 0, rapid.IntRange(0, 3).Draw(t, "steps"); i < k; i++ {
 			if rapid.Bool().Draw(t, "isSolve") {
@@ -283,7 +312,7 @@ func genCase(t *rapid.T) Case {
 
 func init() {
 	vf.Register(vf.Sub[Case]{Name: "roundtrip", Quick: 20000, Thorough: 250000, Gen: genCase, Check: check, Floor: 0.25,
-		Rule: "problems from ParseSliceNb / ParseCNF / ParseCardConstrs / ParsePBConstrs / ParseOPB (n<=8, odd clause shapes, trivially true/false constraints, parse-time Sat and Unsat), with or without cost function; printers: Problem.CNF() (propositional problems), Problem.PBString(), Solver.PBString() after 0..3 Solve/AppendClause steps, explain.Problem.CNF(); each text must satisfy the harness's strict recogniser of its format, parse back without error, and the re-parsed problem (evaluated without solving, unmentioned variables free) must have exactly the original models over the original variables; costs compared on up to 3 drawn assignments by pinning them with unit constraints in the re-parsed text; non-trivial = rendering with units and non-unit constraints, or with a cost function"})
+		Rule: "problems from ParseSliceNb / ParseCNF / ParseCardConstrs / ParsePBConstrs / ParseOPB (n<=8, odd clause shapes, trivially true/false constraints, parse-time Sat and Unsat), with or without cost function; printers: Problem.CNF() (propositional problems), Problem.PBString(), Solver.PBString() after 0..3 Solve/AppendClause steps, explain.Problem.CNF(); in a third of the cases the problem is printed after a solver made from it has solved / optimised it; each text must satisfy the harness's strict recogniser of its format, parse back without error, and the re-parsed problem (evaluated without solving, unmentioned variables free) must have exactly the original models over the original variables; costs compared on up to 3 drawn assignments by pinning them with unit constraints in the re-parsed text; non-trivial = rendering with units and non-unit constraints, or with a cost function"})
 }
 
 func TestMain(m *testing.M)   { vf.Main(m, "C18") }
